@@ -5,7 +5,8 @@
    [sorted es] = parsable creation times never decrease along the file; [names_unique es] = no two parsable
    entries are equal; [find] models cmsys.FindRecordStartIdx; [find_spec] is the linear scan: the entry equal
    to the cursor if there is one, else the last entry not newer (descending) / the first entry not older
-   (ascending) than the cursor, positions counted from 1. *)
+   (ascending) than the cursor, positions counted from 1; [page_walk] models bbs.LoadGeneralArticles iterated on
+   its own next-cursor; [FHang] = a call that does not return within the fuel of its loops. *)
 From Verif Require Import Base.Common Model.C06 Proofs.C06.
 
 (* From ANY starting index between the first and the last parsable entry, the directional post-search returns
@@ -40,23 +41,76 @@ Theorem C06_getrecord : forall es T nm, sorted es -> names_unique es ->
 Proof. exact (fun es T nm Hs Hu => conj (fun i Hv => getrecord_found es T nm i Hs Hu Hv) (getrecord_absent es T nm Hs Hu)). Qed.
 Print Assumptions C06_getrecord.
 
+(* Totality of the lookups: FindRecordStartIdx, GetRecord and GetRecords return (a value or an error) on EVERY
+   input - any file (sorted or not, names repeated or not), any cached total (also one beyond the file, where the
+   error of the second end search is dropped and the binary search runs with end = -1), any cursor, both directions:
+   no loop of record.go runs out of the fuel the model gives it (n+2 per linear loop, 2n+2 binary-search rounds). *)
+Theorem C06_no_hang : forall es total T name nm desc start n,
+  find es total T name desc <> FHang /\ get_record es total T nm <> FHang /\ get_records es start n desc <> FHang.
+Proof. exact no_hang. Qed.
+Print Assumptions C06_no_hang.
+
 (* Page walk, the step the walk rests on: the next-cursor of a parsable entry resolves to exactly that entry's
-   position, in both directions, so the following page starts where the previous one ended.
-   PARTIAL: the full statement
-     forall es k desc, sorted es -> names_unique es -> (0 < k)%nat -> every next-cursor entry parsable ->
-       page_walk es k desc = FOk (0, max 1 (ceil (n/k)), [1..n] or [n..1])
-   (induction over the pages on top of this lemma and the GetRecords loop) is not proved here; it is validated by
-   the check for every file of n <= 7 (thorough: 9) entries, every page size <= n+1, both directions, on the
-   implementation (cmsys-level walk and bbs.LoadGeneralArticles) and on this model. *)
-Theorem C06_page_walk_partial : forall es T nm i desc,
+   position, in both directions, so the following page starts where the previous one ended.  Entries with equal
+   creation times make the cursor's time ambiguous; [names_unique] (file names are created with O_EXCL) is exactly
+   what resolves it (satisfiable together with equal times: ex_file_unique / ex_valid_file_ok; not droppable:
+   walk_needs_unique_names - three entries with one name, page size 1: the walk never ends). *)
+Theorem C06_page_walk_cursor_resolves : forall es T nm i desc,
   sorted es -> names_unique es -> vat es i (T, nm) -> find es (lenZ es) T (Some nm) desc = FOk (i + 1).
 Proof. exact find_present. Qed.
-Print Assumptions C06_page_walk_partial.
+Print Assumptions C06_page_walk_cursor_resolves.
 
-(* The walk as the property states it ("visits every entry") is false: a page boundary on a delete-marked entry
+(* THE PAGE WALK.  [page_walk es k desc] iterates bbs.LoadGeneralArticles on its own next-cursor from the first
+   page (k entries per page, the (k+1)-th is the cursor, FindRecordStartIdx positions the next page) and returns
+   (how it ended, pages served, positions visited); [up_from a m] = [a; a+1; ...] and [down_from a m] = [a; a-1; ...]
+   (m terms), [ceil_div n k] = (n+k-1)/k.
+   [boundaries_parsable es k desc]: for every j >= 1 with j*k < n the entry that opens page j+1 - 0-based position
+   j*k ascending, n-1-j*k descending - is parsable; nothing is asked of any other entry.
+   For EVERY index file with non-decreasing parsable times and unique names, unparsable entries anywhere else, every
+   page size k >= 1, both directions: the walk ends normally (code 0, never Hang / out of fuel, no error), after
+   exactly ceil(n/k) pages (one page for an empty board), having visited 1..n (n..1 newest first) - every position
+   exactly once, in order.  The case the hypothesis excludes is C06_page_walk_refuted_deleted_boundary below. *)
+Theorem C06_page_walk : forall es k desc,
+  sorted es -> names_unique es -> (0 < k)%nat -> boundaries_parsable es k desc ->
+  page_walk es k desc =
+    FOk (0, Z.max 1 (ceil_div (lenZ es) (Z.of_nat k)),
+         if desc then down_from (lenZ es) (length es) else up_from 1 (length es)).
+Proof. exact page_walk_complete. Qed.
+Print Assumptions C06_page_walk.
+
+(* "every entry exactly once": that visited list has no repetition, has n elements and contains exactly 1..n *)
+Theorem C06_page_walk_each_once : forall (es : list entry) (desc : bool),
+  let visited := if desc then down_from (lenZ es) (length es) else up_from 1 (length es) in
+  NoDup visited /\ (forall i, In i visited <-> 1 <= i <= lenZ es) /\ length visited = length es.
+Proof. exact walk_order_once. Qed.
+Print Assumptions C06_page_walk_each_once.
+
+(* The special case without unparsable entries: no hypothesis on page boundaries is left *)
+Theorem C06_page_walk_all_valid : forall es k desc,
+  sorted es -> names_unique es -> (0 < k)%nat -> all_parsable es ->
+  page_walk es k desc =
+    FOk (0, Z.max 1 (ceil_div (lenZ es) (Z.of_nat k)),
+         if desc then down_from (lenZ es) (length es) else up_from 1 (length es)).
+Proof. exact page_walk_all_valid. Qed.
+Print Assumptions C06_page_walk_all_valid.
+
+(* "...and always terminates", with NO hypothesis on page boundaries: every walk over a file with non-decreasing
+   parsable times and unique names ends - either normally (code 0) after all n positions, or with the strconv
+   error of an unparsable page-boundary entry after a proper prefix of the n positions; never out of fuel (Hang),
+   never another error, never a position twice or out of order.  (names_unique is needed: walk_needs_unique_names.) *)
+Theorem C06_page_walk_always_terminates : forall es k desc,
+  sorted es -> names_unique es -> (0 < k)%nat ->
+  exists code pages m,
+    page_walk es k desc =
+      FOk (code, pages, firstn m (if desc then down_from (lenZ es) (length es) else up_from 1 (length es))) /\
+    ((code = 0 /\ m = length es) \/ (code = E_ATOI /\ (m < length es)%nat)).
+Proof. exact page_walk_terminates. Qed.
+Print Assumptions C06_page_walk_always_terminates.
+
+(* The walk as the property states it ("visits every entry", no proviso) is false: a page boundary on a delete-marked entry
    yields a cursor DeserializeArticleIdxStr rejects; with [article; deleted; article] and page size 1 the newest-first
    walk serves one page (entry 3) and stops with the strconv error - entries 2 and 1 are never visited.
-   Known finding C06/deleted-page-boundary. *)
+   This file violates [boundaries_parsable] (refuted_file_boundary).  Known finding C06/deleted-page-boundary. *)
 Theorem C06_page_walk_refuted_deleted_boundary :
   exists es k desc, sorted es /\ names_unique es /\ (0 < k)%nat /\
     page_walk es k desc = FOk (E_ATOI, 1, [3]) /\ lenZ es = 3.
